@@ -428,8 +428,9 @@ def compare_props(R, api, c0, c1, T, kinds, sel_of, exact, ttol=(1e-9, 1e-11), d
                 if (exact and shift) or 'sumcutout' not in name:
                     good &= a.shape == b.shape and bool(np.array_equal(a, b, equal_nan=True))
                 else:     # weights differ by rounding: a weight of 1e-17 instead of 0 un-masks a pixel
-                    good &= a.shape == b.shape and bool(np.allclose(np.nan_to_num(a), np.nan_to_num(b),
-                                                                    rtol=1e-9, atol=1e-9))
+                    # (error cutouts carry sqrt(weight): a weight of 1e-16 shows up as 1e-8)
+                    good &= a.shape == b.shape and bool(np.allclose(np.nan_to_num(a), np.nan_to_num(b), rtol=1e-9,
+                                                                    atol=1e-6 if name.startswith('error') else 1e-9))
             R.ok(api, f'{name} unchanged' if shift else f'{name} transposed', good, det)
         elif kind == 'bbox':
             l0 = v0 if isinstance(v0, (list, tuple)) else [v0]
@@ -457,8 +458,8 @@ def compare_props(R, api, c0, c1, T, kinds, sel_of, exact, ttol=(1e-9, 1e-11), d
             R.ok(api, f'{name} move by (dx,dy)' if shift else f'{name} x/y swapped', good,
                  lambda: dict(detail() if detail else {}, property=name, original=str(v0), transformed=str(v1)))
         elif kind == 'aperture':
-            l0 = v0 if isinstance(v0, (list, tuple)) else [v0]
-            l1 = v1 if isinstance(v1, (list, tuple)) else [v1]
+            l0 = list(v0) if isinstance(v0, (list, tuple, np.ndarray)) else [v0]
+            l1 = list(v1) if isinstance(v1, (list, tuple, np.ndarray)) else [v1]
             good = len(l0) == len(l1)
             for k in range(len(l0) if good else 0):
                 if not sel[k]:
@@ -773,7 +774,7 @@ CAT_SEGMENT = {
     'cutout_minval_index': 'icutyx', 'cutout_maxval_index': 'icutyx',
     'area': 'same', 'segment_area': 'same', 'equivalent_radius': 'same', 'perimeter': 'same',
     'min_value': 'same', 'max_value': 'same', 'segment_flux': 'same', 'segment_fluxerr': 'same',
-    'background_centroid': 'same', 'background_mean': 'same', 'background_sum': 'same',
+    'background_mean': 'same', 'background_sum': 'same',
     'semimajor_sigma': 'same', 'semiminor_sigma': 'same', 'fwhm': 'same', 'eccentricity': 'same',
     'elongation': 'same', 'ellipticity': 'same', 'gini': 'same', 'covariance_eigvals': 'same',
     'orientation': 'orientation',
@@ -848,6 +849,9 @@ def g_source_catalog(sc, T, R, grng):
                   exact=True, ttol=(1e-8, 1e-9), detail=det)
     compare_props(R, 'SourceCatalog', c0, c1, T, CAT_BEYOND, lambda nm: interior, exact=False,
                   ttol=(1e-6, 1e-7), detail=det)
+    # bilinear interpolation of the background at the (float) centroid: weights differ by rounding
+    compare_props(R, 'SourceCatalog', c0, c1, T, {'background_centroid': 'same'}, lambda nm: allsel, exact=False,
+                  ttol=(1e-8, 1e-9), detail=det)
     if interior.any():
         for frac in (0.5, 0.9):
             f0, f1 = val(c0.fluxfrac_radius(frac)), val(c1.fluxfrac_radius(frac))
@@ -1019,8 +1023,16 @@ def g_centroids(sc, T, R, grng):
     shift = T.kind == 'shift'
     dxy = np.array([T.dx, T.dy])
 
-    def rel(api, name, c1, c0, tol, det):
+    def rel(api, name, c1, c0, tol, det, shape=None):
         c0, c1 = np.asarray(c0, float), np.asarray(c1, float)
+        if shape is not None and shift:
+            # centroid_quadratic returns NaN when the vertex of the fitted surface falls outside the array it was
+            # given (documented sanity check): a vertex outside the original stamp but inside the canvas is a
+            # legitimate difference; a fitter result far outside the stamp is a diverged fit (library numerics)
+            p = c1 - dxy if np.all(np.isfinite(c1)) else c0
+            if np.all(np.isfinite(p)) and not (0.0 < p[0] < shape[1] - 1.0 and 0.0 < p[1] < shape[0] - 1.0):
+                R.skip(api, 'result-outside-the-original-stamp')
+                return
         if shift:
             R.ok(api, f'{name} moves by (dx,dy)', bool(np.allclose(c1 - dxy, c0, rtol=0, atol=tol, equal_nan=True)), det)
         else:
@@ -1052,7 +1064,7 @@ def g_centroids(sc, T, R, grng):
         q0 = centroid_quadratic(st, xpeak=xp, ypeak=yp, fit_boxsize=fb, **mk0)
         q1 = centroid_quadratic(ST, xpeak=xpT, ypeak=ypT, fit_boxsize=fbT, **mk1)
         rel('centroid_quadratic', 'centroid (xpeak/ypeak given)', q1, q0, 1e-7,
-            lambda: dict(det, fit_boxsize=fb, peak=(xp, yp), original=js(q0), transformed=js(q1)))
+            lambda: dict(det, fit_boxsize=fb, peak=(xp, yp), original=js(q0), transformed=js(q1)), shape=st.shape)
         if shift:
             # whole-stamp Gaussian fits: only with the padding masked (support)
             pm = np.ones(ST.shape, bool)
@@ -1061,7 +1073,8 @@ def g_centroids(sc, T, R, grng):
             #  no clean relation; centroid_2dg drops masked pixels from the fit)
             g0 = centroid_2dg(st, **mk0)
             g1 = centroid_2dg(ST, mask=pm)
-            rel('centroid_2dg[masked padding]', 'centroid', g1, g0, 1e-4, lambda: dict(det, original=js(g0), transformed=js(g1)))
+            rel('centroid_2dg[masked padding]', 'centroid', g1, g0, 1e-4,
+                lambda: dict(det, original=js(g0), transformed=js(g1)), shape=st.shape)
         else:
             # library fitters (Levenberg-Marquardt): agreement to the convergence tolerance only
             for f, nm, tol in ((centroid_1dg, 'centroid_1dg', 1e-4), (centroid_2dg, 'centroid_2dg', 2e-3)):
@@ -1302,8 +1315,8 @@ def run(ctx):
                       found_input=False)
     ctx.sample({'lattice_case': descs[0]})
     # ---- metamorphic relations on the real API
-    nscenes = 5 if quick else 36
-    nshifts = 2 if quick else 4
+    nscenes = 15 if quick else 60
+    nshifts = 3 if quick else 5
     per_sig = {}
 
     def harvest(R, sc, T, gseed):
